@@ -49,13 +49,50 @@ var scaleSpecs = map[string]scaleSpec{
 }
 
 type ienc struct {
-	decls  []string          // declarations and defining constraints
-	obls   []iobl            // overflow / division obligations
+	decls  []string // declarations and defining constraints
+	obls   []iobl   // overflow / division obligations
 	names  map[ssa.Value]string
 	n      int
 	unsupp string
 	ops    int
 	divs   map[string][2]string
+	// path through a multi-block top-level function (branches become assumptions)
+	path     []*ssa.BasicBlock
+	pathDesc string
+}
+
+// blockPaths enumerates the acyclic entry-to-return paths of fn (nil if cyclic or too many).
+func blockPaths(fn *ssa.Function) [][]*ssa.BasicBlock {
+	var out [][]*ssa.BasicBlock
+	ok := true
+	var walk func(b *ssa.BasicBlock, cur []*ssa.BasicBlock)
+	walk = func(b *ssa.BasicBlock, cur []*ssa.BasicBlock) {
+		if !ok {
+			return
+		}
+		for _, x := range cur {
+			if x == b {
+				ok = false
+				return
+			}
+		}
+		cur = append(append([]*ssa.BasicBlock{}, cur...), b)
+		if len(b.Succs) == 0 {
+			out = append(out, cur)
+			if len(out) > 64 {
+				ok = false
+			}
+			return
+		}
+		for _, s := range b.Succs {
+			walk(s, cur)
+		}
+	}
+	walk(fn.Blocks[0], nil)
+	if !ok {
+		return nil
+	}
+	return out
 }
 
 type iobl struct {
@@ -120,21 +157,61 @@ func (e *ienc) val(v ssa.Value) string {
 
 // encode walks a single-block function; params are bound to the given SMT names.
 func (e *ienc) encode(fn *ssa.Function, args []string, ctx string) string {
-	if len(fn.Blocks) != 1 {
-		e.unsupp = fn.String() + ": not straight-line"
+	blocks := []*ssa.BasicBlock{fn.Blocks[0]}
+	if ctx == "" && e.path != nil {
+		blocks = e.path // one acyclic path through the top-level function
+	} else if len(fn.Blocks) != 1 {
+		e.unsupp = fn.String() + ": callee is not straight-line"
 		return "0"
 	}
 	for i, p := range fn.Params {
 		e.names[p] = args[i]
 	}
-	for _, in := range fn.Blocks[0].Instrs {
+	var instrs []ssa.Instruction
+	prevOf := map[ssa.Instruction]*ssa.BasicBlock{}
+	nextOf := map[ssa.Instruction]*ssa.BasicBlock{}
+	for bi, b := range blocks {
+		for _, in := range b.Instrs {
+			instrs = append(instrs, in)
+			if bi > 0 {
+				prevOf[in] = blocks[bi-1]
+			}
+			if bi+1 < len(blocks) {
+				nextOf[in] = blocks[bi+1]
+			}
+		}
+	}
+	for _, in := range instrs {
 		switch in := in.(type) {
-		case *ssa.DebugRef:
+		case *ssa.DebugRef, *ssa.Jump:
+		case *ssa.Phi:
+			for i, p := range in.Block().Preds {
+				if p == prevOf[in] {
+					e.names[in] = e.val(in.Edges[i])
+				}
+			}
+		case *ssa.If:
+			c := e.val(in.Cond)
+			if nextOf[in] == in.Block().Succs[0] {
+				e.decls = append(e.decls, "(assert "+c+")")
+				e.pathDesc += " [" + in.Cond.String() + "]"
+			} else {
+				e.decls = append(e.decls, "(assert (not "+c+"))")
+				e.pathDesc += " [not " + in.Cond.String() + "]"
+			}
 		case *ssa.BinOp:
 			x, y := e.val(in.X), e.val(in.Y)
 			r := e.fresh("v")
 			e.ops++
 			where := fmt.Sprintf("%s%s: %s", ctx, fn.Name(), in.String())
+			if cmp, ok := map[token.Token]string{token.LSS: "<", token.LEQ: "<=", token.GTR: ">", token.GEQ: ">=", token.EQL: "="}[in.Op]; ok {
+				e.names[in] = fmt.Sprintf("(%s %s %s)", cmp, x, y)
+				continue
+			}
+			if in.Op == token.NEQ {
+				e.names[in] = fmt.Sprintf("(not (= %s %s))", x, y)
+				continue
+			}
 			switch in.Op {
 			case token.ADD:
 				e.decls = append(e.decls, fmt.Sprintf("(define-fun %s () Int (+ %s %s))", r, x, y))
@@ -421,10 +498,10 @@ func cmdIntenc(args []string) int {
 	}
 	var zz z3
 	type viol struct {
-		def    defn
-		reg    regime
-		what   string
-		model  map[string]string
+		def   defn
+		reg   regime
+		what  string
+		model map[string]string
 	}
 	var viols []viol
 	var inconc []string
@@ -433,94 +510,101 @@ func cmdIntenc(args []string) int {
 	var encoded []string
 	for _, d := range defs {
 		encoded = append(encoded, d.pkg+"."+d.fn.Name())
+		paths := blockPaths(d.fn)
+		if paths == nil {
+			inconc = append(inconc, d.pkg+"."+d.fn.Name()+": control flow is cyclic or has more than 64 paths")
+			continue
+		}
 		for _, rg := range regimesFor(d) {
-			e := &ienc{names: map[ssa.Value]string{}}
-			var params []string
-			var pre []string
-			for i, p := range d.fn.Params {
-				n := fmt.Sprintf("p%d", i)
-				params = append(params, n)
-				lo, hi, ok := typeRange(p.Type())
-				if !ok {
-					e.unsupp = "parameter type " + p.Type().String()
-					break
-				}
-				pre = append(pre, fmt.Sprintf("(declare-const %s Int)", n), fmt.Sprintf("(assert (and (>= %s %s) (<= %s %s)))", n, smtInt(lo), n, smtInt(hi)))
-			}
-			res := "0"
-			if e.unsupp == "" {
-				res = e.encode(d.fn, params, "")
-			}
-			if e.unsupp != "" {
-				inconc = append(inconc, d.pkg+"."+d.fn.Name()+": "+e.unsupp)
-				continue
-			}
-			sp := scaleSpecs[d.fn.Name()]
-			opnd := func(o operand) string {
-				if o.param < 0 {
-					return fmt.Sprint(o.k)
-				}
-				return fmt.Sprintf("p%d", o.param)
-			}
-			var sb strings.Builder
-			sb.WriteString("(set-logic ALL)\n(set-option :produce-models true)\n")
-			for _, l := range pre {
-				sb.WriteString(l + "\n")
-			}
-			for _, c := range rg.pre {
-				sb.WriteString("(assert " + c + ")\n")
-			}
-			// exact quotient Q, remainder R of a*b/den; precondition: Q representable
-			fmt.Fprintf(&sb, "(declare-const Q Int)\n(declare-const R Int)\n(define-fun N () Int (* %s %s))\n(define-fun D () Int %s)\n", opnd(sp.a), opnd(sp.b), opnd(sp.den))
-			sb.WriteString("(assert (and (= N (+ (* Q D) R)) (< (abs R) (abs D)) (or (= R 0) (= (< R 0) (< N 0)))))\n")
-			_, rhi, _ := typeRange(d.fn.Signature.Results().At(0).Type())
-			rlo := new(big.Int).Neg(new(big.Int).Add(rhi, big.NewInt(1)))
-			fmt.Fprintf(&sb, "(assert (and (>= Q %s) (<= Q %s)))\n", smtInt(rlo), smtInt(rhi))
-			for _, l := range e.decls {
-				sb.WriteString(l + "\n")
-			}
-			base := sb.String()
-			check := func(what, bad string, prior []string) {
-				nObl++
-				var q strings.Builder
-				q.WriteString(base)
-				for _, p := range prior {
-					q.WriteString("(assert (not " + p + "))\n")
-				}
-				q.WriteString("(assert " + bad + ")\n(check-sat)\n(get-value (" + strings.Join(params, " ") + "))\n")
-				var out string
-				for _, solver := range []string{"z3-new", "/usr/bin/z3", "cvc5"} {
-					out = zz.run(q.String(), timeout, solver)
-					if strings.HasPrefix(out, "sat") || strings.HasPrefix(out, "unsat") {
+			for _, bp := range paths {
+				e := &ienc{names: map[ssa.Value]string{}, path: bp}
+				var params []string
+				var pre []string
+				for i, p := range d.fn.Params {
+					n := fmt.Sprintf("p%d", i)
+					params = append(params, n)
+					lo, hi, ok := typeRange(p.Type())
+					if !ok {
+						e.unsupp = "parameter type " + p.Type().String()
 						break
 					}
+					pre = append(pre, fmt.Sprintf("(declare-const %s Int)", n), fmt.Sprintf("(assert (and (>= %s %s) (<= %s %s)))", n, smtInt(lo), n, smtInt(hi)))
 				}
-				if os.Getenv("SYMGO_V") != "" {
-					fmt.Fprintf(os.Stderr, "%s.%s [%s] %s → %s (%.1fs total)\n", d.pkg, d.fn.Name(), rg.name, what, truncate(strings.TrimSpace(out), 20), zz.total)
+				res := "0"
+				if e.unsupp == "" {
+					res = e.encode(d.fn, params, "")
 				}
-				switch {
-				case strings.HasPrefix(out, "unsat"):
-					nDis++
-				case strings.HasPrefix(out, "sat"):
-					model := map[string]string{}
-					mre := regexp.MustCompile(`\((p\d)\s+(\(-\s*\d+\)|\d+)\)`)
-					for _, mm := range mre.FindAllStringSubmatch(out, -1) {
-						v := strings.NewReplacer("(", "", ")", "", " ", "").Replace(mm[2])
-						model[mm[1]] = v
+				if e.unsupp != "" {
+					inconc = append(inconc, d.pkg+"."+d.fn.Name()+": "+e.unsupp)
+					continue
+				}
+				sp := scaleSpecs[d.fn.Name()]
+				opnd := func(o operand) string {
+					if o.param < 0 {
+						return fmt.Sprint(o.k)
 					}
-					viols = append(viols, viol{d, rg, what, model})
-				default:
-					inconc = append(inconc, fmt.Sprintf("%s.%s [%s] %s: solver answered %q", d.pkg, d.fn.Name(), rg.name, what, truncate(strings.TrimSpace(out), 80)))
+					return fmt.Sprintf("p%d", o.param)
 				}
-			}
-			var prior []string
-			for _, o := range e.obls {
-				check(o.what, o.bad, prior)
-				prior = append(prior, o.bad)
-			}
-			check("result differs from trunc(a·b/den)", fmt.Sprintf("(not (= %s Q))", res), prior)
-			if len(samples) < 4 {
-				samples = append(samples, map[string]interface{}{"function": d.pkg + "." + d.fn.Name(), "regime": rg.name, "obligations": len(e.obls) + 1, "machine_ops": e.ops})
+				var sb strings.Builder
+				sb.WriteString("(set-logic ALL)\n(set-option :produce-models true)\n")
+				for _, l := range pre {
+					sb.WriteString(l + "\n")
+				}
+				for _, c := range rg.pre {
+					sb.WriteString("(assert " + c + ")\n")
+				}
+				// exact quotient Q, remainder R of a*b/den; precondition: Q representable
+				fmt.Fprintf(&sb, "(declare-const Q Int)\n(declare-const R Int)\n(define-fun N () Int (* %s %s))\n(define-fun D () Int %s)\n", opnd(sp.a), opnd(sp.b), opnd(sp.den))
+				sb.WriteString("(assert (and (= N (+ (* Q D) R)) (< (abs R) (abs D)) (or (= R 0) (= (< R 0) (< N 0)))))\n")
+				_, rhi, _ := typeRange(d.fn.Signature.Results().At(0).Type())
+				rlo := new(big.Int).Neg(new(big.Int).Add(rhi, big.NewInt(1)))
+				fmt.Fprintf(&sb, "(assert (and (>= Q %s) (<= Q %s)))\n", smtInt(rlo), smtInt(rhi))
+				for _, l := range e.decls {
+					sb.WriteString(l + "\n")
+				}
+				base := sb.String()
+				check := func(what, bad string, prior []string) {
+					nObl++
+					var q strings.Builder
+					q.WriteString(base)
+					for _, p := range prior {
+						q.WriteString("(assert (not " + p + "))\n")
+					}
+					q.WriteString("(assert " + bad + ")\n(check-sat)\n(get-value (" + strings.Join(params, " ") + "))\n")
+					var out string
+					for _, solver := range []string{"z3-new", "/usr/bin/z3", "cvc5"} {
+						out = zz.run(q.String(), timeout, solver)
+						if strings.HasPrefix(out, "sat") || strings.HasPrefix(out, "unsat") {
+							break
+						}
+					}
+					if os.Getenv("SYMGO_V") != "" {
+						fmt.Fprintf(os.Stderr, "%s.%s [%s] %s → %s (%.1fs total)\n", d.pkg, d.fn.Name(), rg.name, what, truncate(strings.TrimSpace(out), 20), zz.total)
+					}
+					switch {
+					case strings.HasPrefix(out, "unsat"):
+						nDis++
+					case strings.HasPrefix(out, "sat"):
+						model := map[string]string{}
+						mre := regexp.MustCompile(`\((p\d)\s+(\(-\s*\d+\)|\d+)\)`)
+						for _, mm := range mre.FindAllStringSubmatch(out, -1) {
+							v := strings.NewReplacer("(", "", ")", "", " ", "").Replace(mm[2])
+							model[mm[1]] = v
+						}
+						viols = append(viols, viol{d, rg, what, model})
+					default:
+						inconc = append(inconc, fmt.Sprintf("%s.%s [%s] %s: solver answered %q", d.pkg, d.fn.Name(), rg.name, what, truncate(strings.TrimSpace(out), 80)))
+					}
+				}
+				var prior []string
+				for _, o := range e.obls {
+					check(o.what, o.bad, prior)
+					prior = append(prior, o.bad)
+				}
+				check("result differs from trunc(a·b/den)", fmt.Sprintf("(not (= %s Q))", res), prior)
+				if len(samples) < 4 {
+					samples = append(samples, map[string]interface{}{"function": d.pkg + "." + d.fn.Name(), "regime": rg.name, "obligations": len(e.obls) + 1, "machine_ops": e.ops})
+				}
 			}
 		}
 	}
@@ -646,7 +730,7 @@ func writeIntencEvidence(verif, prop, tier string, seed int, extra map[string]in
 		"states": nObl, "transitions": nDis, "traces_validated_against_impl": 0,
 		"obligations": nObl, "discharged": nDis, "inconclusive": inconc,
 		"explanation": "loop-free integer kernels lowered from go/ssa into mathematical-integer SMT: one overflow obligation per machine operation (justifying the drop of wrap-around) plus the functional obligation result = trunc(a·b/den); states = obligations, transitions = obligations discharged (unsat)",
-		"bounds": "none on v (full int64 with representable exact result); clock rates/time scales in [1, 2^32]; call sites with two variable operands: multiplier ≤ 2^31",
+		"bounds":      "none on v (full int64 with representable exact result); clock rates/time scales in [1, 2^32]; call sites with two variable operands: multiplier ≤ 2^31",
 	}
 	if s, ok := extra["samples"]; ok && s != nil {
 		cov["samples"] = s
